@@ -235,6 +235,15 @@ def main():
 	ct := guarded(len(sealed)); copy(ct, sealed)
 	noFault(t, "Open with the ciphertext at the end of a page", func() { if _, err := a.Open(nil, make([]byte, 12), ct, nil); err != nil { t.Fatalf("open failed: %%v", err) } })''' % (keylit, ts, n)
             return test_src(body)
+        if r == 'copyAsm':
+            ns = sorted(set(c.get('n', 1) for c in f['cases']))[:12]
+            body = '''	for _, n := range []int{%s} {
+		dst := guarded(n); src := guarded(n)
+		for i := range src { src[i] = byte(i + 1) }
+		noFault(t, "copyAsm with both buffers ending at a page boundary", func() { copyAsm(&dst[0], &src[0], n) })
+		for i := range src { if dst[i] != src[i] { t.Fatalf("copyAsm(%%d) copies wrongly", n) } }
+	}''' % ', '.join(str(n) for n in ns if n > 0)
+            return test_src(body)
         if cls == 'short-ciphertext':
             # the ciphertext starts at the first byte of a page whose predecessor is PROT_NONE: a read in front of it faults
             cases = f['cases'][:12]
